@@ -4,5 +4,6 @@ set -e
 cd "$(dirname "$0")"
 /venv/bin/python tools/translate.py
 cd lean
-lake build 2>&1 | grep -v "^✔" | tail -40; test ${PIPESTATUS[0]} -eq 0
+# the property modules (with everything they import) and the driver; helper files no property cites are not needed by any check
+lake build SqlProps sqlmodel 2>&1 | grep -v "^✔" | tail -40; test ${PIPESTATUS[0]} -eq 0
 test -x .lake/build/bin/sqlmodel
